@@ -3,21 +3,19 @@ import Invoke.Lemmas.Loader
 
 Property theorems only.  Model: `Invoke/Model/Loader.lean` (literal `FilesystemLoader.find` /
 `Loader.load`); helper lemmas: `Invoke/Lemmas/Loader.lean`.  Paths are component lists below the
-root, `d <+: p` ("`d` is a prefix of `p`") means "`d` is `p` or a directory above it".  `cwd` is the
+root, `d <+: p` ("`d` is a prefix of `p`") means "`d` is `p` or a directory above it" (`[]`, the root, is above everything).  `cwd` is the
 (normal, absolute) working directory, `(isAbs, raw)` the start argument split at `/`. -/
 namespace Inv.Loader
 
-theorem find_eq_root (fs : FS) (cwd : Path) (isAbs : Bool) (raw : List Name) (name : Name)
-    (hp : absPath cwd isAbs raw = []) :
-    find fs cwd isAbs raw name = findFrom fs name [some [], none, none] := by
-  unfold find
-  rw [hp, walkDirs_root]
-
-theorem find_eq_nonroot (fs : FS) (cwd : Path) (isAbs : Bool) (raw : List Name) (name : Name)
-    (hcwd : NoEmpty cwd) (hp : absPath cwd isAbs raw ≠ []) :
+/-- for every start the visited directories are the start directory, its ancestors, the root `/`, and
+    then the empty path string (which ends the walk with `CollectionNotFound`) -/
+theorem find_eq (fs : FS) (cwd : Path) (isAbs : Bool) (raw : List Name) (name : Name) (hcwd : NoEmpty cwd) :
     find fs cwd isAbs raw name = findFrom fs name (dirsOf (absPath cwd isAbs raw).reverse) := by
   unfold find
-  rw [walkDirs_nonroot _ hp (absPath_noEmpty cwd isAbs raw hcwd)]
+  by_cases hp : absPath cwd isAbs raw = []
+  · rw [hp, walkDirs_root]
+    exact findFrom_dup fs name [] [none]
+  · rw [walkDirs_nonroot _ hp (absPath_noEmpty cwd isAbs raw hcwd)]
 
 /-- HEADLINE.  Whatever `find` reports lies at or above the start directory, really contains a module
     or package of that name, and NO directory strictly between it and the start directory (start
@@ -26,29 +24,13 @@ theorem find_nearest (fs : FS) (cwd : Path) (isAbs : Bool) (raw : List Name) (na
     (hcwd : NoEmpty cwd) (h : foundDir (find fs cwd isAbs raw name) = some d) :
     d <+: absPath cwd isAbs raw ∧ hasCandidate fs name d = true ∧
       ∀ d', d' <+: absPath cwd isAbs raw → d <+: d' → d' ≠ d → hasCandidate fs name d' = false := by
-  by_cases hp : absPath cwd isAbs raw = []
-  · rw [find_eq_root fs cwd isAbs raw name hp] at h
-    rw [hp]
-    cases hc : hasCandidate fs name [] with
-    | true =>
-      rw [step_found fs name [] _ hc] at h
-      cases h
-      refine ⟨List.prefix_refl _, hc, ?_⟩
-      intro d' h1 _ h3
-      exact absurd (List.prefix_nil.1 h1) h3
-    | false =>
-      cases hl : fs.ls [] with
-      | none => rw [step_noDir fs name [] _ hl] at h; cases h
-      | some es =>
-        rw [step_skip fs name [] _ es hl hc] at h
-        simp [findFrom, foundDir] at h
-  · rw [find_eq_nonroot fs cwd isAbs raw name hcwd hp] at h
-    obtain ⟨h1, _, h3, h4⟩ := findFrom_nearest fs name _ d h
-    refine ⟨List.reverse_suffix.1 h1, h3, ?_⟩
-    intro d' hd1 hd2 hd3
-    have := h4 d'.reverse (List.reverse_suffix.2 hd1) (List.reverse_suffix.2 hd2)
-      (fun e => hd3 (List.reverse_inj.1 e))
-    simpa using this
+  rw [find_eq fs cwd isAbs raw name hcwd] at h
+  obtain ⟨h1, h3, h4⟩ := findFrom_nearest fs name _ d h
+  refine ⟨List.reverse_suffix.1 h1, h3, ?_⟩
+  intro d' hd1 hd2 hd3
+  have := h4 d'.reverse (List.reverse_suffix.2 hd1) (List.reverse_suffix.2 hd2)
+    (fun e => hd3 (List.reverse_inj.1 e))
+  simpa using this
 
 /-- module beats package inside one directory, and each report is backed by the file it names -/
 theorem find_kind (fs : FS) (cwd : Path) (isAbs : Bool) (raw : List Name) (name : Name) (d : Path) :
@@ -58,66 +40,50 @@ theorem find_kind (fs : FS) (cwd : Path) (isAbs : Bool) (raw : List Name) (name 
         fs.ex (d ++ [name, initPy]) = true) :=
   ⟨findFrom_module_has_file fs name _ d, findFrom_package_no_module fs name _ d⟩
 
-/-- completeness — PARTIAL: a candidate at or above the start directory is found provided the
-    directories from the start upwards can be listed AND the candidate is not in the filesystem root
-    (or the start directory is the root itself).  What is missing for full strength is exactly the
-    root directory: see `find_root_counterexample`. -/
-theorem find_complete_partial (fs : FS) (cwd : Path) (isAbs : Bool) (raw : List Name) (name : Name)
+/-- HEADLINE (completeness, full strength).  If the directories from the start up to the root can be
+    listed (the start directory exists) and ANY directory at or above the start — the filesystem root
+    included — contains a module or package of that name, something is found (and by `find_nearest`
+    it is the nearest such directory). -/
+theorem find_complete (fs : FS) (cwd : Path) (isAbs : Bool) (raw : List Name) (name : Name)
     (hcwd : NoEmpty cwd)
-    (hex : ∀ d', d' <+: absPath cwd isAbs raw → d' ≠ [] → (fs.ls d').isSome = true)
-    (hc : ∃ d, d <+: absPath cwd isAbs raw ∧ (d ≠ [] ∨ absPath cwd isAbs raw = []) ∧
-            hasCandidate fs name d = true) :
+    (hex : ∀ d', d' <+: absPath cwd isAbs raw → (fs.ls d').isSome = true)
+    (hc : ∃ d, d <+: absPath cwd isAbs raw ∧ hasCandidate fs name d = true) :
     ∃ d, foundDir (find fs cwd isAbs raw name) = some d := by
-  by_cases hp : absPath cwd isAbs raw = []
-  · rw [find_eq_root fs cwd isAbs raw name hp]
-    obtain ⟨d, hd, _, hcand⟩ := hc
-    rw [hp] at hd
-    rw [List.prefix_nil.1 hd] at hcand
-    exact ⟨[], step_found fs name [] _ hcand⟩
-  · rw [find_eq_nonroot fs cwd isAbs raw name hcwd hp]
-    apply findFrom_complete
-    · intro s hs hne
-      have h1 : s.reverse <+: absPath cwd isAbs raw := by
-        have := List.reverse_prefix.2 hs
-        simpa using this
-      exact hex s.reverse h1 (fun e => hne (by simpa using e))
-    · obtain ⟨d, hd, hor, hcand⟩ := hc
-      have hdne : d ≠ [] := by
-        rcases hor with h | h
-        · exact h
-        · exact absurd h hp
-      exact ⟨d.reverse, List.reverse_suffix.2 hd, fun e => hdne (by simpa using e), by simpa using hcand⟩
+  rw [find_eq fs cwd isAbs raw name hcwd]
+  apply findFrom_complete
+  · intro s hs
+    have h1 : s.reverse <+: absPath cwd isAbs raw := by
+      have := List.reverse_prefix.2 hs
+      simpa using this
+    exact hex s.reverse h1
+  · obtain ⟨d, hd, hcand⟩ := hc
+    exact ⟨d.reverse, List.reverse_suffix.2 hd, by simpa using hcand⟩
 
-/-- the root directory is never searched unless it is the start directory: `/tasks.py` exists, the
-    walk starts in `/a`, nothing is found (known finding, DESIGN §4 #25 "root") -/
-theorem find_root_counterexample :
+/-- the rule before the repair (DESIGN §4 #25 "root"): the root directory was searched only when it
+    was the start directory — `/tasks.py` exists, the walk starts in `/a`, nothing was found; the
+    code as it is now finds it -/
+theorem find_root_pinned_counterexample :
     let lay : Layout := [([], [['a'], "tasks.py".toList]), ([['a']], [])]
-    find (fsOf lay) [] true [[], ['a']] "tasks".toList = .notFound ∧
+    findPinnedRoot (fsOf lay) [] true [[], ['a']] "tasks".toList = .notFound ∧
     hasCandidate (fsOf lay) "tasks".toList [] = true ∧
+    find (fsOf lay) [] true [[], ['a']] "tasks".toList = .module [] ∧
     find (fsOf lay) [] true [[], []] "tasks".toList = .module [] := by decide
 
-/-- when no directory on the way up (the root only if it is the start directory) contains a candidate,
-    `find` raises `CollectionNotFound` — it never returns `None` and never reports anything -/
+/-- when no directory at or above the start (the root included) contains a candidate, `find` raises
+    `CollectionNotFound` — it never returns `None` and never reports anything -/
 theorem not_found (fs : FS) (cwd : Path) (isAbs : Bool) (raw : List Name) (name : Name)
     (hcwd : NoEmpty cwd)
-    (hno : ∀ d, d <+: absPath cwd isAbs raw → (d ≠ [] ∨ absPath cwd isAbs raw = []) →
-            hasCandidate fs name d = false) :
+    (hno : ∀ d, d <+: absPath cwd isAbs raw → hasCandidate fs name d = false) :
     find fs cwd isAbs raw name = .notFound ∧
     loadFrom fs cwd isAbs raw name = .collectionNotFound := by
   have hf : find fs cwd isAbs raw name = .notFound := by
-    by_cases hp : absPath cwd isAbs raw = []
-    · rw [find_eq_root fs cwd isAbs raw name hp]
-      have hc := hno [] (by rw [hp]; exact List.prefix_refl _) (Or.inr hp)
-      cases hl : fs.ls [] with
-      | none => exact step_noDir fs name [] _ hl
-      | some es => rw [step_skip fs name [] _ es hl hc]; simp [findFrom]
-    · rw [find_eq_nonroot fs cwd isAbs raw name hcwd hp]
-      apply findFrom_notFound
-      intro s hs hne
-      have h1 : s.reverse <+: absPath cwd isAbs raw := by
-        have := List.reverse_prefix.2 hs
-        simpa using this
-      exact hno s.reverse h1 (Or.inl (fun e => hne (by simpa using e)))
+    rw [find_eq fs cwd isAbs raw name hcwd]
+    apply findFrom_notFound
+    intro s hs
+    have h1 : s.reverse <+: absPath cwd isAbs raw := by
+      have := List.reverse_prefix.2 hs
+      simpa using this
+    exact hno s.reverse h1
   exact ⟨hf, by unfold loadFrom; rw [hf]; rfl⟩
 
 /-- the walk never ends normally: `find` never returns `None`, so `load` never raises the bare
@@ -126,20 +92,8 @@ theorem never_import_error (fs : FS) (cwd : Path) (isAbs : Bool) (raw : List Nam
     (hcwd : NoEmpty cwd) :
     find fs cwd isAbs raw name ≠ .noSpec ∧ loadFrom fs cwd isAbs raw name ≠ .importError := by
   have hf : find fs cwd isAbs raw name ≠ .noSpec := by
-    by_cases hp : absPath cwd isAbs raw = []
-    · rw [find_eq_root fs cwd isAbs raw name hp]
-      cases hc : hasCandidate fs name [] with
-      | true =>
-        intro e
-        have := step_found fs name [] [none, none] hc
-        rw [e] at this
-        cases this
-      | false =>
-        cases hl : fs.ls [] with
-        | none => rw [step_noDir fs name [] _ hl]; intro e; cases e
-        | some es => rw [step_skip fs name [] _ es hl hc]; simp [findFrom]
-    · rw [find_eq_nonroot fs cwd isAbs raw name hcwd hp]
-      exact findFrom_ne_noSpec fs name _
+    rw [find_eq fs cwd isAbs raw name hcwd]
+    exact findFrom_ne_noSpec fs name _
   refine ⟨hf, ?_⟩
   unfold loadFrom
   cases hr : find fs cwd isAbs raw name with
@@ -221,11 +175,11 @@ example : loadFrom (fsOf exLay) [['p']] false [] "tasks".toList =
 example : NoEmpty [['p'], ['q']] := by intro c hc; simp at hc; rcases hc with rfl | rfl <;> simp
 example : ∀ c ∈ ([['p'], ['q']] : Path), Plain c := by
   intro c hc; simp at hc; rcases hc with rfl | rfl <;> simp [Plain, dotdot]
-/-- the hypotheses of `find_complete_partial` hold for the start `/p/q/r` -/
-example : (∀ d', d' <+: absPath [] true [[], ['p'], ['q'], ['r']] → d' ≠ [] → ((fsOf exLay).ls d').isSome = true) ∧
+/-- the hypotheses of `find_complete` hold for the start `/p/q/r` -/
+example : (∀ d', d' <+: absPath [] true [[], ['p'], ['q'], ['r']] → ((fsOf exLay).ls d').isSome = true) ∧
     hasCandidate (fsOf exLay) "tasks".toList [['p'], ['q']] = true := by
   refine ⟨?_, by decide⟩
-  intro d' h _
+  intro d' h
   have : absPath [] true [[], ['p'], ['q'], ['r']] = [['p'], ['q'], ['r']] := by decide
   rw [this] at h
   have hlen := h.length_le
@@ -236,5 +190,16 @@ example : (∀ d', d' <+: absPath [] true [[], ['p'], ['q'], ['r']] → d' ≠ [
   | [a, b], t, ht => simp at ht; obtain ⟨rfl, rfl, _⟩ := ht; decide
   | [a, b, c], t, ht => simp at ht; obtain ⟨rfl, rfl, rfl, _⟩ := ht; decide
   | _ :: _ :: _ :: _ :: _, _, _ => simp at hlen
+
+/-- a candidate that sits in the filesystem root: `/mycoll/__init__.py`, start `/p/q` -/
+def exRootLay : Layout :=
+  [([], [['p'], "mycoll".toList]), (["mycoll".toList], [initPy]), ([['p']], [['q']]), ([['p'], ['q']], [])]
+
+example : find (fsOf exRootLay) [] true [[], ['p'], ['q']] "mycoll".toList = .package [] ∧
+    hasCandidate (fsOf exRootLay) "mycoll".toList [] = true ∧
+    loadFrom (fsOf exRootLay) [['p']] false [['q'], []] "mycoll".toList =
+      .ok ⟨["mycoll".toList, initPy], ["mycoll".toList], []⟩ := by decide
+/-- … and nothing anywhere: `CollectionNotFound` after the root has been listed -/
+example : find (fsOf exRootLay) [] true [[], ['p'], ['q']] "tasks".toList = .notFound := by decide
 
 end Inv.Loader
